@@ -358,6 +358,10 @@ async fn graceful_shutdown<S>(
 	S: StreamExt<Item = Result<Incoming, SokettoError>> + Unpin,
 {
 	let pending_calls = ReceiverStream::new(pending_calls);
+	// A message above the size limit is not a disconnect: the peer is still there and
+	// waits for the answers to its pending calls.
+	let ws_stream =
+		ws_stream.filter(|msg| std::future::ready(!matches!(msg, Err(SokettoError::MessageTooLarge { .. }))));
 
 	#[cfg(jsonrpsee_verif)]
 	jsonrpsee_core::verif_hooks::point("server:ws:graceful_shutdown:enter").await;
